@@ -39,8 +39,13 @@
 //	Lookup(r, tableType, lookupType, o)     one lookup table (flags, 1..k subtables)
 //	LookupList(r, tableType, o)             Opts.NumLookups lookups (or a random number)
 //	Info(r, tableType, o)                   script list + feature list + lookup list
+//	Flags(r, o)                             lookup flags + mark filtering set
+//	FeatureList(r, n, numLookups)           gtab.FeatureListInfo
+//	Features(r, nFeatures)                  one language system (*gtab.Features)
+//	ScriptList(r, tags, nFeatures)          gtab.ScriptListInfo over a subset of tags (DefaultTags)
 //	Gdef(r, nGlyphs)                        *gdef.Table
 //	Filler(tableType, nBytes)               lookup of exactly nBytes encoded bytes (header included)
+//	TableOf / SetOf / ClassGlyphs / GID     small conversions and helpers
 //
 // Sizes: Opts.Bytes is the approximate encoded size of one subtable; when it
 // is zero a size is drawn from Opts.Size (Tiny … Huge).  Huge subtables stay
